@@ -151,6 +151,9 @@ def m_sort_by_key(ex, callee, args, pc, store, depth):
     keys = []
     for c in v.cells:
         res = list(ex.call_closure(args[1], [Ref(c)], pc, store, depth))
+        if len(res) == 1 and res[0][0] == "panic":
+            yield res[0]
+            return
         if len(res) != 1 or res[0][0] != "value":
             raise Unsupported("sort key closure forks")
         k = deref_all(res[0][3], res[0][1])
@@ -240,9 +243,13 @@ def ref_under(solver, pc, r, n):
     return found[0] if len(found) == 1 else None
 
 
-def render(solver, pc, syms, heap, name, depth=0):
-    """Tokens the property prescribes for the Pointer `name` (None: the path leaves a needed kind open)."""
-    if depth > 6:
+CYCLIC = "cyclic"
+
+
+def render(solver, pc, syms, heap, name, depth=0, visiting=()):
+    """Tokens the property prescribes for the Pointer `name` (None: the path leaves a needed kind open; CYCLIC: the value reaches
+    itself, so it has no finite rendering and the property prescribes none)."""
+    if depth > 8:
         return None
     k, i, b, r = syms[name]
     kind = kind_under(solver, pc, k)
@@ -257,15 +264,18 @@ def render(solver, pc, syms, heap, name, depth=0):
     idx = ref_under(solver, pc, r, len(heap.cells))
     if idx is None:
         return None
+    if idx in visiting:
+        return CYCLIC
+    visiting = visiting + (idx,)
     cell = heap.cells[idx]
     if cell[0] == "array":
         toks = [("lit", "[")]
         for n, leaf in enumerate(cell[1]):
             if n:
                 toks.append(("lit", ", "))
-            sub = render(solver, pc, syms, heap, leaf, depth + 1)
-            if sub is None:
-                return None
+            sub = render(solver, pc, syms, heap, leaf, depth + 1, visiting)
+            if sub is None or sub is CYCLIC:
+                return sub
             toks += sub
         return toks + [("lit", "]")]
     _, parent, fields = cell
@@ -274,14 +284,14 @@ def render(solver, pc, syms, heap, name, depth=0):
     if pk is None:
         return None
     if pk != K_NULL:
-        sub = render(solver, pc, syms, heap, parent, depth + 1)
-        if sub is None:
-            return None
+        sub = render(solver, pc, syms, heap, parent, depth + 1, visiting)
+        if sub is None or sub is CYCLIC:
+            return sub
         parts.append([("lit", "..=")] + sub)
     for fname, leaf in sorted(fields):
-        sub = render(solver, pc, syms, heap, leaf, depth + 1)
-        if sub is None:
-            return None
+        sub = render(solver, pc, syms, heap, leaf, depth + 1, visiting)
+        if sub is None or sub is CYCLIC:
+            return sub
         parts.append([("lit", fname + "=")] + sub)
     toks = [("lit", "object(")]
     for n, part in enumerate(parts):
@@ -317,6 +327,12 @@ def scan_format(fmt):
     return True, count, pieces
 
 
+TERMINATES = "any line OK .. / ERR out= (the value reaches itself: only termination without a native crash is prescribed)"
+# graph mode: which leaves may be references, and to how many of the first cells
+N_CELLS = 5
+REPLAYED = [0]
+GRAPH_LEAVES = {"graph": {"e0": 2, "f0": 2, "p1": 2}, "graph-thorough": {"e0": 5, "e1": 2, "f0": 5, "f1": 2, "p1": 5}}
+
 FORMATS = [("~", 1), ("a\\\\~b", 1), ("\\\\~", 0), ("a~b~c", 2), ("~~", 2), ("\\~~\\n", 1), ("x", 0), ("", 0), ("~", 0), ("~~", 1), ("x", 1), ("~", 2), ("\\q~", 1), ("~\\q", 1),
            ("é~世", 1), ("\\\"~\\\\~\\t\\r", 2), ("~, ~, ~", 3), ("~ ~", 3)]
 
@@ -339,10 +355,21 @@ def main():
         res["inconclusive"].append("eval_print not found in the MIR dump")
         print(json.dumps(res))
         return
-    quick = len(sys.argv) > 1 and sys.argv[1] == "quick"
-    formats = FORMATS[:11] if quick else FORMATS
+    mode = sys.argv[1] if len(sys.argv) > 1 else "thorough"
+    quick = mode == "quick"
+    graph = mode.startswith("graph")
+    # graph mode (C10): the heap's leaves may themselves be references, so the value graph under the printed argument is any graph over
+    # the cells, cyclic ones included; recursion deeper than any acyclic graph of the shape needs is an outcome of the path
+    formats = [("~", 1)] if graph else (FORMATS[:11] if quick else FORMATS)
+    if graph:
+        res["name"] = "c10_print_graph_mir"
     for fmt, nargs in formats:
         ex = mirx.Executor(bodies, enums, structs, max_depth=60, loop_bound=40)
+        if graph:
+            # rendering one heap cell nests three `evaluate_as_string` activations (Pointer, HeapObject, Array- / ObjectInstance), a leaf one
+            # more, so an acyclic value over n cells needs at most 3n + 1 on one call stack; more is a value that reaches itself (the judge
+            # confirms that with the reference's own cycle test and reports anything else as inconclusive, never as a violation)
+            ex.recursion_watch = (r"::evaluate_as_string$", 3 * N_CELLS + 1)
         store = {}
         b = Builder(ex, store, structs, enums)
         ip = z3.BitVec("ip", 32)
@@ -350,7 +377,12 @@ def main():
         leaves = ["e0", "e1", "f0", "f1", "p1"]
         ptr = {n: b.pointer(n) for n in leaves}
         for n in leaves:
-            b.constraints.append(b.syms[n][0] != K_REF)   # leaf values are null / integers / booleans
+            if not graph:
+                b.constraints.append(b.syms[n][0] != K_REF)   # leaf values are null / integers / booleans
+            elif n in GRAPH_LEAVES[mode]:
+                b.constraints.append(z3.Implies(b.syms[n][0] == K_REF, z3.ULT(b.syms[n][3], GRAPH_LEAVES[mode][n])))   # a reference to one of the first cells
+            else:
+                b.constraints.append(b.syms[n][0] != K_REF)
         b.syms["to1"] = (z3.IntVal(K_REF), z3.BitVecVal(0, 32), z3.BoolVal(False), z3.BitVecVal(1, 64))
         b.syms["to0"] = (z3.IntVal(K_REF), z3.BitVecVal(0, 32), z3.BoolVal(False), z3.BitVecVal(0, 64))
         heap_cells = [b.array_cell([ptr["e0"], ptr["e1"]]),
@@ -385,6 +417,17 @@ def main():
 
         def judge(o, b=b, nargs=nargs, defined=defined, pieces=pieces, state_cell=state_cell, out_cell=out_cell, shape=shape, solver=solver, ip=ip):
             st = o.store
+            cyclic = False
+            if graph and defined:
+                for k in range(nargs):
+                    sub = render(solver, o.pc, b.syms, shape, "a%d" % k)
+                    if sub is None:
+                        return None, "the path leaves the kind of a rendered value open"
+                    cyclic = cyclic or sub is CYCLIC
+            if o.kind == "panic" and str(o.msg).startswith("__DEPTH__"):
+                if cyclic:
+                    return z3.BoolVal(False), "unbounded recursion: rendering a value that reaches itself never returns (native stack exhaustion)"
+                return None, "the executor's call depth bound was hit while rendering an acyclic value"
             if o.kind == "panic":
                 return z3.BoolVal(False), "panic: " + str(o.msg)
             if o.kind != "return":
@@ -393,7 +436,9 @@ def main():
             if o.value.disc == 1:
                 if written:
                     return z3.BoolVal(False), "Err after writing %r" % (mirfmt_show(written),)
-                return z3.BoolVal(not defined), "Err"
+                return z3.BoolVal(cyclic or not defined), "Err"
+            if cyclic:
+                return z3.BoolVal(True), "terminated on a value that reaches itself (no rendering is prescribed)"
             if not defined:
                 return z3.BoolVal(False), "Ok although the print is undefined"
             want = []
@@ -437,9 +482,18 @@ def main():
 
         def describe(o, mdl, what, pathno, fmt=fmt, nargs=nargs, b=b, leaves=leaves):
             argv = ["print", fmt.encode("utf-8").hex()] + [model_pointer(mdl, b.syms[n]) for n in leaves] + [model_pointer(mdl, b.syms["a%d" % i]) for i in range(nargs)]
-            observed = native(argv)
             expected = expect_print(fmt, [argv[2 + i] for i in range(len(leaves))], argv[2 + len(leaves):])
-            reproduced = any(line != expected for line in observed.values()) if expected is not None else False
+            if expected == TERMINATES:
+                # one class of counterexample (a value that reaches itself): the first few are run natively, the rest are recorded unreplayed
+                REPLAYED[0] += 1
+                if REPLAYED[0] > 4:
+                    return {"id": "print_cyclic_path%d" % pathno, "what": "print: outcome %s for format %r, heap leaves %s, arguments %s (same class as the replayed ones; not replayed)" % (
+                        what, fmt, argv[2:2 + len(leaves)], argv[2 + len(leaves):]), "reproduced": False, "replay_bin": "vmstep", "replay_argv": argv, "expected": expected, "observed": {}}
+            observed = native(argv)
+            if expected == TERMINATES:
+                reproduced = any(line.startswith("SIGNAL") or line.startswith("PANIC") for line in observed.values())
+            else:
+                reproduced = any(line != expected for line in observed.values()) if expected is not None else False
             return {"id": "print_%s_args%d_path%d" % (fmt.encode("utf-8").hex(), nargs, pathno),
                     "what": "print: outcome %s contradicts the definition for format %r, heap leaves %s, arguments %s (expected %s, observed %s)" % (
                         what, fmt, argv[2:2 + len(leaves)], argv[2 + len(leaves):], expected, observed),
@@ -454,6 +508,12 @@ def main():
                   "(null / integer / boolean / reference to any of 5 heap cells: array of two leaves, object with two fields declared x1, x and any primitive parent, "
                   "object whose parent is that object, empty array, array holding an array) when there is one argument; with several arguments each is a primitive, "
                   "the array of two integers or the empty array; leaf values symbolic" % len(formats))
+    if graph:
+        r["bound"] = ("print(\"~\", v) for every Pointer v over the 5-cell heap (array [e0, e1]; object {x1: f0, x: f1} with parent p1; object whose parent is that object; "
+                      "empty array; array holding the first array) in which the leaves %s are any Pointer too, references to the first cells included (%s), so the "
+                      "graph under v is any graph of that shape, cyclic ones included; more than 16 nested `evaluate_as_string` activations on one call stack "
+                      "(an acyclic value over 5 cells nests at most 3 * 5 + 1) on a value the reference finds cyclic is the outcome `unbounded recursion`" % (
+                          sorted(GRAPH_LEAVES[mode]), ", ".join("%s: first %d" % kv for kv in sorted(GRAPH_LEAVES[mode].items()))))
     r["samples"] = [{"kernel": k["kernel"], "shape": k["shape"], "paths": k["paths"]} for k in r["kernels"][:6]]
     print(json.dumps(r))
 
@@ -474,7 +534,10 @@ def expect_print(fmt, leaves, args):
         return "ERR out="
     e0, e1, f0, f1, p1 = leaves
 
-    def show(p, depth=0):
+    class Cycle(Exception):
+        pass
+
+    def show(p, seen=()):
         if p == "null":
             return "null"
         k, v = p.split(":")
@@ -483,25 +546,36 @@ def expect_print(fmt, leaves, args):
         if k == "bool":
             return "true" if v == "1" else "false"
         i = int(v)
+        if i in seen:
+            raise Cycle()
+        seen = seen + (i,)
         if i == 0:
-            return "[%s, %s]" % (show(e0), show(e1))
+            return "[%s, %s]" % (show(e0, seen), show(e1, seen))
         if i == 1:
-            parts = ([] if p1 == "null" else ["..=" + show(p1)]) + ["x=" + show(f1), "x1=" + show(f0)]
+            parts = ([] if p1 == "null" else ["..=" + show(p1, seen)]) + ["x=" + show(f1, seen), "x1=" + show(f0, seen)]
             return "object(%s)" % ", ".join(parts)
         if i == 2:
-            return "object(..=%s)" % show("ref:1")
+            return "object(..=%s)" % show("ref:1", seen)
         if i == 3:
             return "[]"
-        return "[%s]" % show("ref:0")
+        return "[%s]" % show("ref:0", seen)
     text, k = "", 0
-    for piece in pieces:
-        if piece is None:
-            text += show(args[k])
-            k += 1
-        else:
-            text += piece
+    try:
+        for piece in pieces:
+            if piece is None:
+                text += show(args[k])
+                k += 1
+            else:
+                text += piece
+    except Cycle:
+        return TERMINATES
     return "OK out=" + text.encode("utf-8").hex()
 
 
 if __name__ == "__main__":
-    main()
+    import threading
+    sys.setrecursionlimit(200000)           # graph mode follows a cyclic value down to call depth 150; every MIR call is several Python frames
+    threading.stack_size(1 << 30)
+    t = threading.Thread(target=main)
+    t.start()
+    t.join()
